@@ -13,6 +13,8 @@ def exU : Univ where
     | 5 => .model [⟨"x", .cls 0, true⟩]           -- class A (first definition)
     | 6 => .model [⟨"x", .cls 0, true⟩]           -- class A (second definition, same qualified name)
     | 7 => .model [⟨"v", .cls 0, true⟩, ⟨"next", .union [7, 4], false⟩]   -- recursive Node
+    | 10 => .enum [("RED", .int 1), ("GREEN", .int 2)]                    -- class Color(Enum)
+    | 11 => .enum [("SMALL", .int 1), ("BIG", .int 2)]                    -- class Size(Enum): the same values
     | _ => .unknown
   nameKey := fun u => if u == 6 then 5 else u
   strOf := fun _ => ""
@@ -33,5 +35,13 @@ def Outcome.isOk : Outcome → Bool
 def Outcome.objCid : Outcome → Option Nat
   | .ok (.obj c _) => some c
   | _ => none
+
+/-- the Enum member a load returned -/
+def Outcome.member : Outcome → Option (Nat × String)
+  | .ok (.enum c n) => some (c, n)
+  | _ => none
+
+/-- `Retort(recipe=[enum_by_name(Color, Size)])` -/
+def exEnumCfg : Cfg := { strict := true, recipe := [⟨.enumByName, [.cls 10, .cls 11]⟩] }
 
 end Adaptix.Cache
